@@ -196,6 +196,21 @@ def templates():
         names = list(g)
         for order in (names, names[::-1], sorted(names), names[1:] + names[:1], names[2:] + names[:2]):
             out.append((g, {n: None for n in NTS}, order))
+    # indirect left recursion (x -> y A, y -> x B): the closure of a state must hold the items of BOTH, whichever is expanded first
+    ilr = [{'start': [('A', 'x'), ('B', 'y')], 'x': [('y', 'A'), ('z',)], 'y': [('x', 'B'), ('w',)], 'z': [('C',)], 'w': [('C', 'C')]},
+           {'start': [('A', 'x', 'A'), ('B', 'y')], 'x': [('y', 'A'), ('C',)], 'y': [('z', 'B'), ('B',)], 'z': [('x',), ('z', 'C')]}]
+    for g in ilr:
+        names = list(g)
+        for order in (names, names[::-1], names[1:] + names[:1], names[2:] + names[:2]):
+            out.append((g, {n: None for n in NTS}, order))
+    # transitions in one cycle of the 'reads' relation (nullable non-terminals reading each other) whose follow sets differ: the second
+    # digraph pass must not leak lookaheads between them - visible through priority-resolved reduce/reduce conflicts
+    cyc = [({'start': [('x', 'x'), ('y', 'y')], 'x': [(), ('A',)], 'y': [(), ('x', 'start', 'A')]}, {'y': 2}),
+           ({'start': [(), ('y',)], 'x': [(), ('start', 'z', 'A')], 'y': [(), ('z',)], 'z': [('x', 'y')]}, {'y': 2, 'z': 2}),
+           ({'start': [('x',)], 'x': [('y',)], 'y': [(), ('x', 'x', 'A'), ('y', 'y')]}, {'start': 1, 'x': 2}),
+           ({'start': [('x', 'y', 'x')], 'x': [('y',)], 'y': [(), ('y',), ('start', 'A')]}, {'start': 1, 'x': 2})]
+    for g, pr in cyc:
+        out.append((g, dict({n: None for n in NTS}, **pr), None))
     return out
 
 
@@ -367,6 +382,35 @@ if digraph is not None:
                      got, exp if exp is not None else 'no exception')
                 break
         if any(f['key'] == 'digraph-closure' for f in fails): break
+
+    # the way compute_lookaheads uses it: the result of one pass is the set function of the next (follow = digraph(X, includes, digraph(X, reads, DR)))
+    def reach(n, R):
+        exp = {}
+        for x in range(n):
+            seen, todo = {x}, [x]
+            while todo:
+                for y in R[todo.pop()]:
+                    if y not in seen: seen.add(y); todo.append(y)
+            exp[x] = seen
+        return exp
+    pairs = [(n, b1, b2) for n in (1, 2) for b1 in range(2 ** (n * n)) for b2 in range(2 ** (n * n))]
+    pairs += [(3, b1, b2) for b1 in range(2 ** 9) for b2 in range(2 ** 9)] if tier != 'quick' else [(3, rnd.randrange(2 ** 9), rnd.randrange(2 ** 9)) for _ in range(8000)]
+    for n, b1, b2 in pairs:
+        evals += 1
+        X = list(range(n))
+        R1 = {x: [y for y in X if b1 >> (x * n + y) & 1] for x in X}
+        R2 = {x: [y for y in X if b2 >> (x * n + y) & 1] for x in X}
+        try:
+            F2 = digraph(X, R2, digraph(X, R1, {x: {x} for x in X}))
+        except Exception as e:
+            note('digraph-composed', {'nodes': n, 'first_relation': R1, 'second_relation': R2}, 'raised %s' % type(e).__name__, 'no exception'); break
+        r1, r2 = reach(n, R1), reach(n, R2)
+        exp = {x: set().union(*[r1[y] for y in r2[x]]) for x in X}
+        got = {x: set(F2[x]) for x in X}
+        if got != exp:
+            note('digraph-composed', {'nodes': n, 'first_relation': {str(k): v for k, v in R1.items()}, 'second_relation': {str(k): v for k, v in R2.items()}},
+                 {str(k): sorted(v) for k, v in got.items()}, {str(k): sorted(v) for k, v in exp.items()})
+            break
 
 # the recorded finding: priority-resolved reduce/reduce on a cyclic grammar -> the reduce loop never ends
 g11 = 'start: a\na: b | "x"\nb.2: a\n'
